@@ -26,7 +26,7 @@ META = {
 }
 
 CONF = ROOT + "/.gwfconf.json"
-VALUES = ["0", "00", "-1", "+1", "7", "12345678901234567890", "true", "yes", "false", "no", "True", "YES", "", "1.0", "x", "none", "null", " 1", "1_0", "no ", "[1]", "a b", "é"]
+VALUES = ["0", "00", "-1", "+1", "7", "12345678901234567890", "true", "yes", "false", "no", "True", "YES", "", "1.0", "x", "none", "null", " 1", "1_0", "no ", "[1]", "a b", "é", "S\u00f8ren \u00c6r\u00f8", "\u4e2d\u6587"]
 KEYS = ["verbose", "user.key", "backend.slurm.log_mode", "backend.slurm.log_mode_extra", "backend", "a.b.c"]
 
 
@@ -70,6 +70,16 @@ def _q20a(vi, ki):
         got = w.config_get(k)          # a later invocation: fresh FileConfig loaded from the file
         if not any(_same(got, a) for a in acc):
             return "get %r returned %r in a later invocation, expected %r" % (k, got, acc)
+        # ... and one under another locale (cron, a batch node with LANG=C): files opened without an explicit encoding use ASCII there
+        w.vfs.locale_encoding = "ascii"
+        try:
+            got = w.config_get(k)
+        except UnicodeError as exc:
+            return "after set %r=%r the configuration cannot be read under the C locale: %s" % (k, v, type(exc).__name__)
+        finally:
+            w.vfs.locale_encoding = None
+        if not any(_same(got, a) for a in acc):
+            return "get %r returned %r under the C locale, expected %r" % (k, got, acc)
         return ""
     finally:
         w.uninstall()
